@@ -35,6 +35,18 @@ def _safe_names():
 
 
 ATTR_NAMES = _safe_names()
+
+
+def _aliases():
+    from saml2_tophat.attributemaps import saml_uri
+    to = saml_uri.MAP["to"]
+    byw = {}
+    for k, w in to.items():
+        byw.setdefault(w, []).append(k)
+    return {n: [k for k in byw.get(to[n], []) if k != n] for n in ATTR_NAMES}
+
+
+ALIASES = _aliases()
 NAMEID_FORMATS = ["urn:oasis:names:tc:SAML:2.0:nameid-format:transient",
                   "urn:oasis:names:tc:SAML:2.0:nameid-format:persistent",
                   "urn:oasis:names:tc:SAML:1.1:nameid-format:emailAddress"]
@@ -128,6 +140,12 @@ class G(object):
         r = self.r
         n = r.weighted([(0, 1 if empty_ok else 0), (1, 3), (2, 3), (3, 2), (6, 1)])
         names = r.sample(ATTR_NAMES, n)
+        if names and r.chance(0.2):
+            # two asserted names that share one wire name: an alias from the same map, or a case variant
+            base = r.pick(names)
+            alias = r.pick(ALIASES.get(base, []) + [base.upper(), base.lower(), base.capitalize()])
+            if alias not in names:
+                names.append(alias)
         ident = {}
         for nm in names:
             k = r.weighted([(1, 5), (2, 2), (4, 1)])
@@ -206,7 +224,8 @@ def gen_c04(seed, tier):
         p = g.sign_params(sp)
         p["identity"] = g.identity(hostile=0.1)
         kind = "none" if clean and r.chance(0.6) else r.pick(BOUND_KINDS)
-        style = r.weighted([("Z", 6), ("frac", 2), ("frac9", 1), ("nozone", 1), ("fracnozone", 1)])
+        style = r.weighted([("Z", 6), ("frac", 2), ("frac9", 1), ("nozone", 1), ("fracnozone", 1),
+                            ("off+02:00", 1), ("off-05:00", 1), ("off+05:30f", 0.5), ("off+14:00", 0.5)])
         use_dialect = kind in ("cond_nb", "scd_nb", "issue_late", "issue_early", "inverted") or r.chance(0.5) \
             or style != "Z"
         life = r.pick([1, 5, 300, 3600]) if not clean else r.pick([300, 3600])
@@ -266,6 +285,8 @@ def gen_c04(seed, tier):
         g.tick(1)
         # choose where the SP's clock stands relative to the targeted edge
         delta = r.pick([-2, -1, 0, 1, 2]) if r.chance(0.75) else r.pick([-3600, -100, -10, 10, 100, 3600, 2 * 86400])
+        if style.startswith("off") and r.chance(0.7):
+            delta = r.pick([60, 3600, 7000, 4 * 3600, -3600, -4 * 3600, 13 * 3600])   # inside the window an ignored offset opens
         target = None
         if kind in ("cond_nooa", "scd_nooa", "session") and offs.get(kind) is not None:
             target = idp_now + offs[kind] + slack + delta            # now - (b + slack) = delta
@@ -338,10 +359,15 @@ def gen_c02(seed, tier):
         for target in sigs:
             where = r.pick(["sigvalue", "digest", "text", "attr"])
             pp = dict(p)
-            if target == "assertion" and enc:
-                # the signature travels inside the ciphertext: corrupt between sign and encrypt
+            if target == "assertion" and (enc or sr):
+                # the assertion signature travels inside the ciphertext and/or under the response signature:
+                # corrupt the hand-over file right after the assertion was signed, i.e. before --encrypt and
+                # before the response is signed (so that every *other* signature stays valid)
                 pp["handover"] = {"where": where, "target": "assertion"}
                 g.login(sp, idp, pp, gap=0.5)
+                if sr and not enc and r.chance(0.5):
+                    # and the same cell with the corruption in transit (breaks both signatures)
+                    g.login(sp, idp, dict(p), gap=0.5, resp_kw={"mut": {"k": "xml", "where": where, "target": target}})
             else:
                 if target == "response" and enc and where in ("text",):
                     where = "attr"
@@ -613,7 +639,8 @@ def gen_c03(seed, tier):
 def gen_c17(seed, tier):
     g = G(seed, "C17", tier)
     r = g.r
-    idp = g.add_idp(0)
+    hooked = g.rl.chance(0.3)
+    idp = g.add_idp(0, **({"enc_in_config": g.rl.chance(0.6), "enc_hook_allow": [6, 7, 8, 9]} if hooked else {}))
     nsp = g.rl.pick([1, 2, 2])
     sps = []
     for i in range(nsp):
@@ -633,6 +660,14 @@ def gen_c17(seed, tier):
         p["lifetime"] = r.pick([60, 600])
         if r.chance(0.5):
             p["name_id"] = {"text": g.marker("nid"), "format": NAMEID_FORMATS[1]}
+        if hooked and r.chance(0.6):
+            # an encryption certificate comes with the request; the operator's hook accepts the SPs' own
+            # certificates only.  Encryption may be requested per call or only switched on in the configuration
+            p["enc_cert"] = r.pick([sp["enc_keys"][0], sp["enc_keys"][0], 10, 11])
+            if idp.get("enc_in_config") and r.chance(0.6):
+                p["encrypt"] = None
+            g.login(sp, idp, p)
+            continue
         variant = r.weighted([("plain", 6), ("advice", 1), ("pefim", 1)]) if clean or r.chance(0.5) else "plain"
         if variant == "advice":
             p["advice"] = True
